@@ -8,3 +8,6 @@ import Verif.Properties.C14
 #print axioms C14.mediaFor_rule
 #print axioms C14.securityRequirements_rule
 #print axioms C14.empty_security_disables
+#print axioms C14.required_consumes_union
+#print axioms C14.required_produces_union
+#print axioms C14.required_security_union
